@@ -20,6 +20,14 @@ package idna
 //                     d+"b9b" with d enumerated over [a-z0-9] denote U+D7F8..U+D81B (reference decoder c50refDecode): surrogates are rejected, scalars round-trip, and for
 //                     the non-validating profiles (Punycode, New()) ToASCII idempotence and ToASCII(ToUnicode(x)).
 //
+//   VerifC50_bigdelta One generalised variable-length integer with SYMBOLIC digits, 1..10 digits (any delta below 2^39, incl.
+//                     everything that overflows 32 bits), after 0..1 symbolic basic code points: decode accepts exactly
+//                     when the delta denotes a Unicode scalar value (reference in 64-bit arithmetic) and returns it at
+//                     the right position; the rejected payloads are rejected by ToASCII/ToUnicode of every profile.
+//   VerifC50_names    Multi-label names (1..3 labels) enumerated over label shapes built from 8 atoms (ASCII letter, digit,
+//                     hyphen, upper case, non-ASCII L, R, AL, AN), each non-ASCII label as U-label or A-label: the
+//                     statement's idempotence / ToASCII(ToUnicode(x)) clauses, Punycode, Lookup, Display, Registration.
+//
 // Known finding C50-ascii-alabel: see known_findings.txt and repro/C50. C50-surrogate-payload (decode returned U+FFFD
 // for a payload that encodes a surrogate) was found by VerifC50_surrogate and is fixed in /repo (3484f90).
 //
@@ -29,6 +37,8 @@ package idna
 //   idna.go process `if err2 != nil { if err == nil {` -> `if err != nil {`          caught (alabel, not masked by the
 //            known finding: kcond does not hold for invalid payloads)
 //   idna.go process: dropping the `unicode16 &&` guard (candidate repair)            check passes, no KNOWN-FINDING
+//   punycode.go madd `int64(b) * int64(c)` -> `int64(b * c)` (seed C50-A)            caught (bigdelta, quick)
+//   idna.go process `isBidi = isBidi || ...` -> `isBidi = ...` (seed C50-B)          caught (names, quick)
 
 func init() {
 	vfRegister("VerifC50_decenc", VerifC50_decenc)
@@ -36,6 +46,8 @@ func init() {
 	vfRegister("VerifC50_alabel", VerifC50_alabel)
 	vfRegister("VerifC50_idem", VerifC50_idem)
 	vfRegister("VerifC50_surrogate", VerifC50_surrogate)
+	vfRegister("VerifC50_bigdelta", VerifC50_bigdelta)
+	vfRegister("VerifC50_names", VerifC50_names)
 }
 
 func c50ldh(label string, n int) string {
@@ -320,5 +332,166 @@ func VerifC50_surrogate() {
 	}
 	vfObserveStr("encoded", e)
 	vfAssert(err2 == nil && e == p, "encode(decode(s)) == s")
+	vfReach("end")
+}
+
+// c50thresholds: RFC 3492 6.2 thresholds t(j) = clamp(36*(j+1) - bias, 1, 26) and weights w(0) = 1,
+// w(j+1) = w(j) * (36 - t(j)) of the digits of one generalised variable-length integer, in 64-bit arithmetic.
+func c50thresholds(bias, n int) (t, w []int) {
+	t, w = make([]int, n), make([]int, n)
+	wj := 1
+	for j := 0; j < n; j++ {
+		tj := 36*(j+1) - bias
+		if tj < 1 {
+			tj = 1
+		} else if tj > 26 {
+			tj = 26
+		}
+		t[j], w[j] = tj, wj
+		wj *= 36 - tj
+	}
+	return
+}
+
+// VerifC50_bigdelta (B): one generalised variable-length integer of ANY magnitude with SYMBOLIC digits (the harnesses
+// above enumerate at most 3 digits, so deltas stay below 36^3): payload = [0..1 symbolic basic code point + '-'] + one
+// integer of 1..10 digits (lengths forked; every digit but the last >= its threshold, the last below it; digit values
+// symbolic). With the initial bias the thresholds and weights are constants, so the value is a linear form of the
+// digits. Reference (width independent, RFC 3492 6.2 with unbounded integers, 64-bit here: the value is < 2^39):
+// V = sum d(j)*w(j), n = 128 + V div (b+1), position V mod (b+1); the payload is valid iff n is a Unicode scalar value.
+// This covers the overflow rule of RFC 3492 6.4 end to end: every V >= 2^31 (and every V wrapping to a small value
+// modulo 2^32) is invalid because n would exceed U+10FFFF.
+func VerifC50_bigdelta() {
+	nb := vfLen("basic", 0, 1)
+	nd := vfLen("digits", 1, 10)
+	basic := c50basic(nb)
+	pre := basic
+	if nb > 0 {
+		vfAssume(basic[0] != '-') // keep the last '-' the delimiter's
+		pre += "-"
+	}
+	t, w := c50thresholds(72, nd)
+	ds := make([]byte, nd)
+	V := 0
+	for j := 0; j < nd; j++ {
+		d := vfU8("digitvalue")
+		if j < nd-1 {
+			vfAssume(vfAnd(int(d) >= t[j], d <= 35))
+		} else {
+			vfAssume(int(d) < t[j])
+		}
+		ds[j] = vfIteU8(d < 26, 'a'+d, '0'+(d-26))
+		V += int(d) * w[j]
+	}
+	p := pre + string(ds)
+	x := nb + 1
+	n, pos := 128+V/x, V%x
+	valid := vfAnd(n <= 0x10ffff, vfOr(n < 0xd800, n > 0xdfff))
+
+	u, err := decode(p)
+	vfAssert((err == nil) == valid, "decode accepts the payload exactly when its delta denotes a Unicode scalar value")
+	if err != nil {
+		// invalid payload: the label must be refused by the profiles as well (decode fails before any table lookup)
+		prof := c50profile(vfChoice("profile", 5))
+		_, errA := prof.ToASCII("xn--" + p)
+		_, errU := prof.ToUnicode("xn--" + p)
+		vfAssert(errA != nil && errU != nil, "ToASCII and ToUnicode reject an A-label whose delta is out of range")
+		if vfConcretizeBool(V > 0x7fffffff) {
+			vfReach("beyond-int32")
+		}
+		if vfConcretizeBool(V > 0xffffffff) {
+			vfReach("beyond-uint32")
+		}
+		vfReach("rejected-delta")
+		vfReach("end")
+		return
+	}
+	ip := int(vfConcretize(uint64(pos)))
+	exp := make([]rune, x)
+	exp[ip] = rune(n)
+	if nb > 0 {
+		exp[1-ip] = rune(basic[0])
+	}
+	vfAssert(u == string(exp), "decoded label = the basic code point kept, U+(128 + V div (b+1)) inserted at position V mod (b+1)")
+	if nd <= 2+vfTier() {
+		// (the re-encoding of a symbolic delta is a chain of symbolic divisions: slow for 3 digits, not decided in time
+		// for 4 or 5; VerifC50_decenc / VerifC50_surrogate cover the round trip on enumerated digits)
+		e, err2 := encode("", u)
+		vfAssert(err2 == nil && e == p, "encode(decode(s)) == s")
+	}
+	vfObserveStr("decoded", u)
+	vfReach("accepted-delta")
+	vfReach("end")
+}
+
+// c50atoms: one code point per class that matters to label validation and the Bidi Rule (RFC 5893): ASCII letter (L),
+// ASCII digit (EN), hyphen (ES), upper-case ASCII letter (mapped by the mapping profiles, disallowed by the others),
+// non-ASCII L, R (Hebrew), AL (Arabic), AN (Arabic-Indic digit).
+var c50atoms = []rune{'a', '1', '-', 'A', 0xfc, 0x5d0, 0x627, 0x660}
+
+// VerifC50_names (B): multi-label names whose labels are enumerated over every sequence of atoms from c50atoms (quick:
+// one label of 1..3 atoms, two labels of 1..2 atoms, three labels of 1 atom; thorough: in names of two or three labels
+// one label, at any position, may have one more atom), each non-ASCII label spelled either as a U-label or as the A-label produced by encode
+// (so the name-wide state of Profile.process - the bidi flag accumulated over U-labels and decoded A-labels, the error
+// of an earlier label - is exercised in every order and spelling); profiles Punycode, Lookup,
+// Display, Registration. Concrete inputs: the x/text tries are walked concretely. Oracle = the statement: if ToASCII
+// accepts x then ToASCII(ToASCII(x)) == ToASCII(x) and ToASCII(ToUnicode(x)) == ToASCII(x).
+func VerifC50_names() {
+	prof := c50profile(vfChoice("profile", 4))
+	nl := vfLen("labels", 1, 3)
+	long := -1
+	if vfTier() > 0 && nl > 1 {
+		long = vfChoice("long", nl)
+	}
+	x := ""
+	anyA, anyU := false, false
+	for i := 0; i < nl; i++ {
+		maxAtoms := 4 - nl // 3, 2, 1 atoms per label for names of 1, 2, 3 labels; thorough: one more for one label
+		if i == long {
+			maxAtoms++
+		}
+		na := vfLen("atoms", 1, maxAtoms)
+		rs := make([]rune, na)
+		nonASCII := false
+		for j := range rs {
+			rs[j] = c50atoms[vfChoice("atom", len(c50atoms))]
+			if rs[j] >= 0x80 {
+				nonASCII = true
+			}
+		}
+		label := string(rs)
+		if nonASCII && vfChoice("spelling", 2) == 1 {
+			a, err := encode(acePrefix, label)
+			vfAssert(err == nil, "harness: short labels encode")
+			label = a
+			anyA = true
+		} else if nonASCII {
+			anyU = true
+		}
+		if i > 0 {
+			x += "."
+		}
+		x += label
+	}
+	a1, err := prof.ToASCII(x)
+	vfObserveStr("x", x)
+	vfObserveBool("rejected", err != nil)
+	if err != nil {
+		vfReach("names-rejected")
+		vfReach("end")
+		return
+	}
+	a2, err2 := prof.ToASCII(a1)
+	vfAssert(err2 == nil && a2 == a1, "ToASCII(ToASCII(x)) == ToASCII(x)")
+	u, _ := prof.ToUnicode(x)
+	a3, err3 := prof.ToASCII(u)
+	vfAssert(err3 == nil && a3 == a1, "ToASCII(ToUnicode(x)) == ToASCII(x)")
+	if anyA && anyU {
+		vfReach("mixed-spellings-accepted")
+	}
+	if anyA {
+		vfReach("alabel-name-accepted")
+	}
+	vfObserveStr("ascii", a1)
 	vfReach("end")
 }
